@@ -146,19 +146,23 @@ def isDimCol (dimCols : List String) : Cell → Bool
   | .str s => dimCols.contains s
   | _ => false
 
+/-- a column labelled with a dimension's letter gets the dimension's name -/
+def renameLetter (dims : DimSet) : Cell → Cell
+  | .str s =>
+    match dims.find? (fun d => d.letter.toString == s) with
+    | some d => .str d.name
+    | none => .str s
+  | c => c
+
+/-- the name of the dimension a column label stands for, if any -/
+def dimColName? (dims : DimSet) : Cell → Option String
+  | .str s => if (names dims).contains s then some s else none
+  | _ => none
+
 /-- `_get_dim_columns_by_name_or_letter` -/
 def byNameOrLetter (dims : DimSet) (df : DF) : Conv :=
-  let cols := df.cols.map fun c =>
-    match c with
-    | .str s =>
-      match dims.find? (fun d => d.letter.toString == s) with
-      | some d => Cell.str d.name
-      | none => c
-    | _ => c
-  { df := { df with cols := cols },
-    dimCols := cols.filterMap fun c => match c with
-      | .str s => if (names dims).contains s then some s else none
-      | _ => none }
+  { df := { cols := df.cols.map (renameLetter dims), rows := df.rows },
+    dimCols := (df.cols.map (renameLetter dims)).filterMap (dimColName? dims) }
 
 /-- `_check_if_first_row_are_items` (with the guard added by the D19 repair) -/
 def firstRowItems? (dims : DimSet) (c : Conv) : Option Conv :=
@@ -268,15 +272,18 @@ structure LongTable where
   rows : List (List Cell × Option Rat)
 deriving Repr
 
+/-- `df[dim.name].map(dim.dtype)` for a typed dimension; untyped dimensions keep their cells -/
+def convLabel (d : Dim) (c : Cell) : Option Cell :=
+  match d.dtype with
+  | some dt => convCell dt c
+  | none => some c
+
 /-- `_convert_type` and `_sort_columns` -/
 def toLong? (dims : DimSet) (c : Conv) (valueCol : Cell) : Option LongTable := do
   let js ← dims.mapM fun d => c.df.colIdx? (.str d.name)
   let jv ← c.df.colIdx? valueCol
   let rows ← c.df.rows.mapM fun r => do
-    let labels ← (List.zip dims js).mapM fun (p : Dim × Nat) =>
-      match p.1.dtype with
-      | some dt => convCell dt (r.getD p.2 .nan)
-      | none => some (r.getD p.2 .nan)
+    let labels ← (List.zip dims js).mapM fun (p : Dim × Nat) => convLabel p.1 (r.getD p.2 .nan)
     let v ← valueOfCell? (r.getD jv .nan)
     some (labels, v)
   some { rows := rows }
